@@ -41,6 +41,43 @@ def boundary():
     return ops
 
 
+def carry():
+    """which deadline a key has after a command that overwrites, moves or stores into it: every
+    combination of source deadline (none / future) and destination state (missing / live without
+    deadline / live with deadline / expired), for RENAME, RENAMENX, GETSET, SET (+KEEPTTL via SetXX
+    keepTTL), APPEND, INCR, the *STORE commands, RPOPLPUSH and SMOVE; followed by PTTL and a clock
+    step past the destination's old deadline"""
+    ops = ["open a mem"]
+    i = 0
+    from gen_api import hx
+    def K(n):
+        return hx(f"{n}{i}".encode())
+    for src_dl in (0, 5000):
+        for dst_state in ("missing", "live", "deadline", "expired"):
+            for cmd in ("Rename", "RenameNX", "GetSet", "Set0", "Set1", "Append", "Incr", "SUnionStore", "ZUnionStore", "RPopLPush", "SMove"):
+                i += 1
+                fam = "set" if cmd in ("SUnionStore", "SMove") else ("zset" if cmd == "ZUnionStore" else ("list" if cmd == "RPopLPush" else "str"))
+                mk = {"str": lambda k, v: f"api Set {k} {hx(v)} 0", "set": lambda k, v: f"api SAdd {k} {hx(v)}",
+                      "zset": lambda k, v: f"api ZAdd {k} {hx(v)} 3ff0000000000000", "list": lambda k, v: f"api RPush {k} {hx(v)}"}[fam]
+                s_, d_ = K("s"), K("d")
+                ops.append(mk(s_, b"5"))
+                if src_dl:
+                    ops.append(f"api ExpirePX {s_} {src_dl}")
+                if dst_state != "missing":
+                    ops.append(mk(d_, b"7"))
+                if dst_state == "deadline":
+                    ops.append(f"api ExpirePX {d_} 300")
+                if dst_state == "expired":
+                    ops += [f"api ExpirePX {d_} 1", "sleep 2"]
+                ops.append({"Rename": f"api Rename {s_} {d_}", "RenameNX": f"api RenameNX {s_} {d_}", "GetSet": f"api GetSet {d_} 39",
+                            "Set0": f"api Set {d_} 39 0", "Set1": f"api SetXX {d_} 39 1", "Append": f"api Append {d_} 39", "Incr": f"api Incr {d_}",
+                            "SUnionStore": f"api SUnionStore {d_} {s_}", "ZUnionStore": f"api ZUnionStore {d_} [ {s_} ] [ ] -",
+                            "RPopLPush": f"api RPopLPush {s_} {d_}", "SMove": f"api SMove {s_} {d_} 35"}[cmd])
+                ops += [f"api PTTL {d_}", f"api PTTL {s_}", "sleep 450", f"api Exists {d_} {s_}", f"api PTTL {d_}", "ldump", f"api Del {d_} {s_}"]
+    ops.append("dump")
+    return ops
+
+
 def run(ctx, proofs_ok):
     apicheck.run_streams(ctx, [
         {"label": "random expiry streams with exact clock steps (deterministic clock, memory backend)", "fams": ["exp", "exp", "exp", "str", "key", "list", "set"],
@@ -49,4 +86,5 @@ def run(ctx, proofs_ok):
          "n": (1500, 5000), "count": (2, 20), "ft": True, "events": {"sleep": 0.12, "gc": 0.06, "flush": 0.02, "reopen": 0.02}},
         {"label": "absolute deadlines far in the past / future on Pebble (wall clock)", "fams": ["exp", "str", "key", "hash"],
          "n": (600, 3000), "count": (1, 6), "backend": "pebble", "events": {"gc": 0.08, "reopen": 0.03}},
-    ], extra=[("deadline boundary: every observer command at T-1, T, T+1 for every way of setting a deadline", boundary(), True)])
+    ], extra=[("deadline boundary: every observer command at T-1, T, T+1 for every way of setting a deadline", boundary(), True),
+              ("carried deadlines: which deadline the destination of an overwrite / move / store has, for every source and destination state", carry(), True)])
